@@ -69,6 +69,11 @@ def run_one(name, tier, all_checks):
             env = dict(os.environ, VERIF_TIER=tier)
             r = sh("python3 tools/lv.py check %s --tier %s" % (pid, tier), cwd=VERIF, env=env)
             viol = [l for l in r.stdout.splitlines() if l.startswith("VIOLATION")]
+            if "harness does not build" in r.stdout and "crates/" not in r.stdout.split("harness does not build")[1][:1500]:
+                # an error in the harness' own sources is not a catch
+                res["checks"][pid] = {"exit": r.returncode, "caught": False, "invalid": "harness build error", "seconds": 0,
+                                      "no_failing_input": False, "first_failure": ""}
+                continue
             res["checks"][pid] = {
                 "exit": r.returncode,
                 "caught": bool(viol) and r.returncode != 0,
